@@ -31,3 +31,31 @@ Fixpoint mismatches_from (i : N) (l : list obs) : list N :=
   | [] => []
   | o :: r => if agrees o then mismatches_from (i + 1) r else i :: mismatches_from (i + 1) r
   end.
+
+(* ---------------------------------------------------------------- exhaustive scopes by checksum
+   All strings over an alphabet (given by the check) up to a length are lexed by the model INSIDE Coq and folded into a
+   polynomial checksum over the (kind, text) sequences and the closed flag; the harness computes the same checksum from
+   lexer.New.  Order: depth first, a string before its extensions, symbols in the order of [alpha].  On a mismatch the
+   check bisects by prefix down to one concrete string. *)
+Definition HM : N := 2305843009213693951%N.   (* 2^61 - 1, used as a bit mask: arithmetic modulo 2^61 *)
+Definition mix (h x : N) : N := N.land (h * 1000003 + x + 1)%N HM.
+
+Fixpoint hash_bytes (h : N) (s : list byte) : N :=
+  match s with [] => h | b :: r => hash_bytes (mix h (Byte.to_N b)) r end.
+
+Fixpoint hash_toks (h : N) (ts : list (N * list byte)) : N :=
+  match ts with
+  | [] => h
+  | (k, t) :: r => hash_toks (mix (hash_bytes (mix h (k + 1000)%N) t) 999%N) r
+  end.
+
+Definition hash_case (h : N) (inp : list byte) : N :=
+  let '(ts, fin) := lex_out inp in
+  mix (hash_toks (mix h 7%N) (map (fun t => (tk_kind t, tk_text inp t)) ts)) (if fin then 1%N else 0%N).
+
+Fixpoint fold_strings (alpha : list (list byte)) (n : nat) (prefix : list byte) (h : N) : N :=
+  let h' := hash_case h prefix in
+  match n with
+  | O => h'
+  | S m => fold_left (fun a sym => fold_strings alpha m (prefix ++ sym) a) alpha h'
+  end.
